@@ -1322,6 +1322,10 @@ func Main() {
 	cases("values", r.N(300, 20000), groupValues)
 	cases("strings", r.N(50000, 20000000)/stringsPerCase, groupStrings)
 	cases("chain", r.N(400, 40000), groupChain)
+	if sel == "" || strings.Contains(","+sel+",", ",pool,") {
+		// overlapping encodings need real parallelism: own child options
+		r.Cases("pool", r.N(48, 3000), core.Opts{Procs: 4, Workers: 2, StallSec: 900, MemMB: 4096, Env: []string{"GOMAXPROCS=4"}}, groupPool)
+	}
 
 	r.Floor("values_roundtripped", int64(r.N(10000, 700000)))
 	r.Floor("types_generated", int64(r.N(300, 20000)))
@@ -1338,6 +1342,7 @@ func Main() {
 	r.Floor("receipt_roundtrips", 100)
 	r.Floor("account_roundtrips", 100)
 	r.Floor("header_roundtrips", 100)
+	r.Floor("pool_concurrent_encodings", 10000)
 	for _, m := range []string{"len-leading-zero", "long-form-short-payload", "single-byte-wrapped", "size+1", "size-1", "size=2^32", "size=2^64-1"} {
 		r.Floor("rewrites:"+m, 50)
 	}
